@@ -93,7 +93,6 @@ func (a *asm) pushN(v *big.Int, n int) *asm {
 }
 func (a *asm) push(v *big.Int) *asm    { return a.pushN(v, 0) }
 func (a *asm) pushU(v uint64) *asm     { return a.pushN(new(big.Int).SetUint64(v), 0) }
-func (a *asm) bytes() []byte           { return append([]byte{}, a.b...) }
 func (a *asm) append(code []byte) *asm { a.b = append(a.b, code...); return a }
 
 // epilogue stores the whole stack (depth items, top first) behind memLen bytes of memory and
@@ -227,18 +226,6 @@ type witness struct {
 	Err      string   `json:"error,omitempty"`
 	Panic    string   `json:"panic,omitempty"`
 	Note     string   `json:"note,omitempty"`
-}
-
-func words(b []byte) []string {
-	var w []string
-	for i := 0; i < len(b); i += 32 {
-		j := i + 32
-		if j > len(b) {
-			j = len(b)
-		}
-		w = append(w, hex.EncodeToString(b[i:j]))
-	}
-	return w
 }
 
 func panicClass(p interface{}) string {
@@ -853,11 +840,11 @@ func run(c *kit.Ctx) {
 		}
 	}
 	// (a2) random tuples
-	for k, n := 0, c.N(600, 12000); k < n; k++ {
+	for k, n := 0, c.N(600, 10000); k < n; k++ {
 		cases = append(cases, caseDef{id: fmt.Sprintf("r/%d", k), kind: 1})
 	}
 	// (b) random programs
-	for k, n := 0, c.N(2200, 44000); k < n; k++ {
+	for k, n := 0, c.N(2200, 36000); k < n; k++ {
 		cases = append(cases, caseDef{id: fmt.Sprintf("p/%d", k), kind: 2})
 	}
 	// (c) memory opcodes with unaffordable offsets
